@@ -686,6 +686,37 @@ fn handle(line: &str) -> String {
             if !(o.lead == 0 && s == 96 && out.get(s..s + 4) == Some(&m[..]) && out.get(h..h + 4) == Some(&m[..]) && out.len() == pl + pkg.content.len()) { bad.push("offsets".into()); }
             if bad.is_empty() { "same".to_string() } else { format!("differs: {}", bad.join(",")) }
         }
+        "wsink_zero" => {
+            // <k>: write a built package (with a payload) into sinks that accept k bytes per call (0 = all) and are full - write() answers Ok(0) - after cap bytes, every cap
+            struct Full { k: usize, cap: usize, data: Vec<u8> }
+            impl std::io::Write for Full {
+                fn write(&mut self, b: &[u8]) -> std::io::Result<usize> {
+                    let room = self.cap - self.data.len();
+                    let n = b.len().min(room).min(if self.k == 0 { usize::MAX } else { self.k });
+                    self.data.extend_from_slice(&b[..n]);
+                    Ok(n)
+                }
+                fn flush(&mut self) -> std::io::Result<()> { Ok(()) }
+            }
+            let k: usize = p[1].parse().unwrap_or(0);
+            let src = std::env::temp_dir().join(format!("rpm-native-replay-src-{}", std::process::id()));
+            std::fs::write(&src, b"payload bytes").unwrap();
+            let pkg = rpm::PackageBuilder::new("x", "1.0", "MIT", "noarch", "d").compression(rpm::CompressionType::None).with_file(&src, rpm::FileOptions::new("/d/f")).and_then(|b| b.build());
+            let _ = std::fs::remove_file(&src);
+            let pkg = match pkg { Ok(p) => p, Err(_) => return "build-err".to_string() };
+            let mut canon = Vec::new();
+            pkg.write(&mut canon).unwrap();
+            let mut bad = Vec::new();
+            for cap in 0..canon.len() {
+                let mut sink = Full { k, cap, data: Vec::new() };
+                let good = match pkg.write(&mut sink) {
+                    Ok(()) => false,                                     // the sink cannot have received everything
+                    Err(_) => sink.data[..] == canon[..sink.data.len()],
+                };
+                if !good { bad.push(cap); }
+            }
+            if bad.is_empty() { "ok".to_string() } else { format!("bad capacities={:?}... ({} of {})", &bad[..bad.len().min(4)], bad.len(), canon.len()) }
+        }
         "wsink" => {
             // <k> <fail_at> <intr_at> <package|metadata>: write a freshly built package into a scripted sink; every failure position is tried
             let k: usize = p[1].parse().unwrap_or(0);
